@@ -113,6 +113,26 @@ Proof.
   eexists. split; [vm_compute; reflexivity|]. vm_compute. repeat split; reflexivity.
 Qed.
 
+(* C12_granted_on_release_partial — progress, complementing C12_quiescent: let [st] be the state right after a
+   notification (or any state).  If some waiting request would be granted when evaluated in [st]
+   (C12_granted_on_release_partial: [try_waiter st w] grants; C12_granted_on_release_exact_partial: exactly the n >= 1
+   locations it asks for are valid in [st] — by C12_valid_iff_fits: fit the free capacity — and _allocate_job does not
+   raise), then the wake-up round, in whatever order the waiters re-evaluate, grants at least one waiter (possibly an
+   earlier one), and every granted job is one of the waiters.  Any locations, stacked included.
+   "partial": it is the round that is modelled; that notify_all really makes every waiter run the round is exercised on
+   the real scheduler (seeded mutant C12a: notify(k) instead of notify_all is caught by the quiescence oracle). *)
+Theorem C12_granted_on_release_partial : forall ws st st' g w s1 vn,
+  wake_round st ws = Ok (st', g) -> In w ws -> try_waiter st w = Ok (s1, vn, true) -> g <> [].
+Proof. exact wake_round_progress. Qed.
+Theorem C12_granted_on_release_exact_partial : forall ws st st' g w v s1,
+  wake_round st ws = Ok (st', g) -> In w ws ->
+  valid_locations st (w_reqs w) (w_job w) (w_cands w) = Ok v -> length v = w_n w -> w_n w <> 0%nat ->
+  allocate st (w_job w) (w_reqs w) v = Ok s1 -> g <> [].
+Proof. exact wake_round_progress_exact. Qed.
+Theorem C12_granted_are_waiters : forall ws st st' g,
+  wake_round st ws = Ok (st', g) -> forall j, In j g -> exists w, In w ws /\ w_job w = j.
+Proof. exact wake_round_granted_in. Qed.
+
 (* known finding: after ROLLBACK of /s0/1 nothing is fireable or running, yet /s0/0.9 finds no valid location *)
 Theorem C12_rollback_blocks_refuted :
   exists st, run init rollback_history = Ok st /\ no_active (Ok st) = true /\
@@ -130,4 +150,7 @@ Print Assumptions C12_valid_iff_fits.
 Print Assumptions C12_quiescent_partial.
 Print Assumptions C12_quiescent.
 Print Assumptions C12_reachable_states_satisfy_Inv.
+Print Assumptions C12_granted_on_release_partial.
+Print Assumptions C12_granted_on_release_exact_partial.
+Print Assumptions C12_granted_are_waiters.
 Print Assumptions C12_rollback_blocks_refuted.
